@@ -894,7 +894,7 @@ VARIANTS = [
     M("unify-1-md-lists-only", "lena/structures/hist_functions.py", "    if hasattr(edges[0], '__iter__'):\n    # if isinstance(edges[0], (list, tuple)):", "    if isinstance(edges[0], list):", ["C12-k"]),
     M("get-nevents-memo", "lena/structures/histogram.py", "        bin_contents = (val[1] for val in hf.iter_bins(self.bins))\n        n_in_range = sum(bin_contents)\n",
       "        cached = getattr(self, \"_nevents\", None)\n        if cached is not None and cached[0] is self.bins:\n            n_in_range = cached[1]\n        else:\n            bin_contents = (val[1] for val in hf.iter_bins(self.bins))\n            n_in_range = sum(bin_contents)\n            self._nevents = (self.bins, n_in_range)\n", ["C12-j"]),
-    M("graph-rows-cached", "lena/structures/graph.py", "    def _parse_error_names(self, field_names):", "    def _cached_len(self):\n        self.__dict__.setdefault(\"_len\", len(self.coords[0]))\n        return self._len\n\n    def _parse_error_names(self, field_names):", ["C12-j"]),
+    M("graph-rows-cached", "lena/structures/graph.py", "    def _parse_error_names(self, field_names):", "    def cached_len(self):\n        self.__dict__.setdefault(\"_len\", len(self.coords[0]))\n        return self._len\n\n    def _parse_error_names(self, field_names):", ["C12-j"]),
     M("isclose-tolerances-swapped", "lena/math/utils.py", "            if not isclose(el, b[ind], rel_tol, abs_tol):", "            if not isclose(el, b[ind], abs_tol, rel_tol):", ["C12-i"]),
     M("edges-high-is-low", "lena/structures/hist_functions.py", "            edges_high.append(edges[var][var_ind+1])", "            edges_high.append(edges[var][var_ind])", ["C12-h"]),
     M("edges-swapped-zip", "lena/structures/hist_functions.py", "        yield (bin_, tuple(zip(edges_low, edges_high)))", "        yield (bin_, tuple(zip(edges_high, edges_low)))", ["C12-h"]),
